@@ -214,10 +214,12 @@ def main():
         for r in results:
             if not r.get('witness') or r['status'] == 'inconclusive': continue
             spec = [s for s in specs if s['name'] == r['name']][0]
-            try:
-                rr = rp.run_replay(spec, r['witness'])
-            except Exception as e:
-                rr = {'status': 'error', 'detail': str(e)}
+            for attempt in range(2):
+                try:
+                    rr = rp.run_replay(spec, r['witness'])
+                except Exception as e:
+                    rr = {'status': 'error', 'detail': str(e)}
+                if rr.get('status') != 'error': break
             if rr.get('status') == 'error':
                 r['witness_replay'] = {'status': 'error', 'detail': rr.get('detail', '')[-300:]}
                 r['status'] = 'inconclusive'; r['notes'].append('witness replay failed to build/run: ' + rr.get('detail', '')[-200:])
